@@ -61,6 +61,7 @@ func (p *Program) reachableStatic(roots []*ssa.Function) map[*ssa.Function]bool 
 
 func checkC10(c *Ctx) {
 	c.Explanation = "Decides the timer path structurally: (O1) timer.Record makes exactly one delivery on every path - the cached timer when present, else the reporter with the timer's own name and tags - passing its parameter unchanged, with no go statement, channel send or store before returning (synchronous, unbuffered); (O2) no function reachable from a report pass delivers or buffers timer values (so passes neither repeat nor buffer them); (O3) Start captures the clock at call time with the receiver as recorder, Stop calls RecordStopwatch(start) once, RecordStopwatch computes now.Sub(start) and records it once; (O4) instrument Exec invokes the function exactly once between Start and Stop, increments exactly one of the two counters chosen by err != nil and returns that error / nil; NewCall wires error/success to the matching tag constants; (O5) Scope.Timer (like the other get-or-create functions) returns a newly built timer only after inserting it under the write lock on the miss edge of the re-check, so racing first users all record on the registered timer."
+	c.Explanation += " Added by round 8: (O4 newcall:timing) the latency timer is scope.SubScope(name).Timer(constant)."
 	c.NotDecided = []string{"wall-clock accuracy of the measured duration"}
 
 	mPlainT := c.ifaceMethod("", "StatsReporter", "ReportTimer")
